@@ -238,6 +238,8 @@ class UnionConverter(Converter[t.Any]):
     Constructor to call with parsed value.
     Called with ``(val, index of type in union)``
     """
+    handlers: ConverterHandlers
+    """Custom handlers in effect for this union"""
 
     def __init__(self, types: t.Sequence[IntoConverter], *,
                  handlers: ConverterHandlers = ConverterHandlers(),
@@ -245,6 +247,7 @@ class UnionConverter(Converter[t.Any]):
         self.types = tuple(flatten_union_args(types))
         self.converters = tuple(make_converter(ty, handlers) for ty in types)
         self.constructor = constructor
+        self.handlers = handlers
 
     def expected(self, plural: bool = False) -> str:
         """See [`Converter.expected`][pane.converters.Converter.expected]"""
@@ -262,8 +265,8 @@ class UnionConverter(Converter[t.Any]):
                 pass
             else:
                 return conv.into_data(val)
-        # default to regular conversion
-        return into_data(val)
+        # default to conversion by runtime type (keeping the custom handlers in effect)
+        return make_converter(type(val), self.handlers).into_data(val)
 
     def construct(self, val: t.Any, i: int) -> t.Any:
         if self.constructor is None:
